@@ -75,8 +75,12 @@ impl BitmapEvent {
                         if self.data.len() < size {
                             return Err(Error::RdpError(RdpError::new(RdpErrorKind::InvalidSize, "Uncompressed bitmap data is shorter than the bitmap")))
                         }
-                        let mut result = self.data;
-                        result.truncate(size);
+                        // uncompressed bitmap are sent bottom-up
+                        let stride = self.width as usize * 4;
+                        let mut result = Vec::with_capacity(size);
+                        for i in (0..self.height as usize).rev() {
+                            result.extend_from_slice(&self.data[i * stride..(i + 1) * stride]);
+                        }
                         result
                     }
                 )
